@@ -187,6 +187,10 @@ func runProperty(res *Result, prop, tier string, seed uint64, driver, replay str
 	switch prop {
 	case "C19":
 		cases = append(cases, annotCases(g, n)...)
+	case "C11":
+		cases = append(cases, pairCases(g)...)
+		cases = append(cases, annotCases(g, n/2)...)
+		cases = append(cases, genCases(g, n/2)...)
 	case "C01", "C02", "C08", "C10":
 		cases = append(cases, pairCases(g)...)
 		cases = append(cases, genCases(g, n)...)
